@@ -66,3 +66,19 @@ Theorem C11_all_handlers_from_source : forall h c tok line wok ready,
   run_generated h c tok line wok ready = Some (run_handler h c tok line wok ready).
 Proof. exact all_handlers_from_source. Qed.
 Print Assumptions C11_all_handlers_from_source.
+
+(* ---------- what reaches the processor is the line's own bytes ----------
+   The fields of an emitted event are substrings of the MESSAGE the processor is given; that this
+   message is itself a verbatim part of the syslog line (split at the first blank run after the PID
+   token, nothing collapsed or rewritten) is the generated translation of ParseSyslogMessage / Process
+   and of the entry point's configuration literal. *)
+From AM Require Import Lib.GoStrings Gen.PureFuncs Proofs.PureFuncsTie Model.Syslog.
+From AM Require Import Gen.EntryMetrics Model.EntryMetricsIR Proofs.EntryMetricsTie.
+Theorem C11_process_line_from_source : forall line,
+  option_map entry_pair (gen_process_line line) = Some (process_line line).
+Proof. exact process_line_from_source. Qed.
+Print Assumptions C11_process_line_from_source.
+
+Theorem C11_entry_from_source : forall pid msg, entry_args gen_entry (pid, msg) = Some (pid, msg).
+Proof. exact entry_from_source. Qed.
+Print Assumptions C11_entry_from_source.
